@@ -5,7 +5,7 @@ rows = []
 for f in sorted(glob.glob('/verif/seeded/*/meta.json')):
     m = json.load(open(f))
     rows.append((m['id'], m.get('summary', '')[:140].replace('|', '/'), m.get('needs_to_manifest', '')[:110].replace('|', '/'),
-                 m.get('caught_by', '')[:90].replace('|', '/'), 'missed at first' if 'missed first' in m.get('note', '') else ''))
+                 m.get('caught_by', '')[:90].replace('|', '/'), 'missed at first' if ('missed first' in (m.get('note') or '') or 'missed at first' in (m.get('note') or '')) else ''))
 out = ['<!-- SEEDTABLE-BEGIN -->', '', '| seed | change | needs to manifest | caught by (check:key) | note |', '|---|---|---|---|---|']
 out += ['| %s | %s | %s | %s | %s |' % r for r in rows]
 missed_first = sum(1 for r in rows if r[4])
